@@ -28,9 +28,16 @@ type FlowCase struct {
 	// Twice: the same application object is Run a second time with the same vector; the second invocation is a valid
 	// invocation like the first and must show the same behaviour
 	Twice bool `json:"twice,omitempty"`
+	// HelpIn: hooks (indexed like Beh) that first print the root command's help ("app.PrintHelp(); cli.Exit(2)" is the
+	// documented way to refuse an invocation from inside an Action)
+	HelpIn []bool `json:"help_in,omitempty"`
 }
 
 type panicMarker struct{ idx int }
+
+// ExitCode makes the panic value look like the error types that carry a child's exit status (os/exec.ExitError has
+// exactly this method): it is still an ordinary panic value, not a request to exit.
+func (m *panicMarker) ExitCode() int { return 3 }
 
 // exitCodeOf is the status hook idx exits with: mostly 100+idx, but every third hook uses Exit(0) - "exit with status 0"
 // is an exit like any other and must not be confused with "no exit requested".
@@ -48,8 +55,8 @@ func flowRun(c *FlowCase) (log []string, end string, strayPanic interface{}) {
 	var out Outcome
 	var app *cli.Cli
 	var argv []string
-	markers := map[int]*panicMarker{}
-	mk := func(name string, b int, idx int) func() {
+	markers := map[*panicMarker]bool{} // every marker value a hook of this plan may raise (initializers can run more than once)
+	mk0 := func(name string, b int, idx int) func() {
 		switch b {
 		case HAbsent:
 			return nil
@@ -57,10 +64,22 @@ func flowRun(c *FlowCase) (log []string, end string, strayPanic interface{}) {
 			return func() { log = append(log, name) }
 		case HPanics:
 			m := &panicMarker{idx}
-			markers[idx] = m
+			markers[m] = true
 			return func() { log = append(log, name); panic(m) }
 		default:
 			return func() { log = append(log, name); cli.Exit(exitCodeOf(idx)) }
+		}
+	}
+	mk := func(name string, b int, idx int) func() {
+		f := mk0(name, b, idx)
+		if f == nil || idx >= len(c.HelpIn) || !c.HelpIn[idx] {
+			return f
+		}
+		return func() {
+			if app != nil {
+				app.PrintHelp()
+			}
+			f()
 		}
 	}
 	never := func(name string) func() { return func() { log = append(log, "NEVER:"+name) } }
@@ -115,12 +134,12 @@ func flowRun(c *FlowCase) (log []string, end string, strayPanic interface{}) {
 	return
 }
 
-func flowEnd(out *Outcome, end string, markers map[int]*panicMarker) string {
+func flowEnd(out *Outcome, end string, markers map[*panicMarker]bool) string {
 	switch {
 	case out.Exit != nil:
 		return fmt.Sprintf("exit(%d)x%d", *out.Exit, out.Exits)
 	case out.PanicVal != nil:
-		if m, ok := out.PanicVal.(*panicMarker); ok && markers[m.idx] == m {
+		if m, ok := out.PanicVal.(*panicMarker); ok && markers[m] {
 			return fmt.Sprintf("panic(P%d)", m.idx)
 		}
 		return "panic(other)"
